@@ -278,6 +278,27 @@ def gen_cases(ck):
                     args.append(pool[rng.randrange(len(pool))] if rng.random() < 0.35 else pool[rng.randrange(min(5, len(pool)))])
                 ret = rng.choice([""] + KINDS)
                 cases.append({"k": "func", "params": list(sig), "ret": ret, "retv": rng.choice(ret_pool(ret)), "args": args})
+    # POSITION matrix: for every signature of arity 2 and 3 over {int, float64, string, bool} and every
+    # result kind among them, for every argument position ONE argument that is not of the parameter's
+    # script sort (needs conversion or must be rejected) while all the other arguments are exactly of
+    # their parameter's sort (distinct values, so that a mixed-up or zeroed argument shows)
+    core = ["int", "float64", "string", "bool"]
+    exact = {"int": [I(3), I(5), I(7)], "float64": [F(2.5), F(-0.75), F(8.25)], "string": [S("x"), S("yy"), S("zzz")], "bool": [B(True), B(True), B(False)]}
+    sort_of = {"int": "int", "float64": "float", "string": "str", "bool": "bool"}
+    off_pool = [I(2), F(2.9), S("abc"), S("12"), B(True), N, A]
+    for n in (2, 3):
+        for sig in itertools.product(core, repeat=n):
+            for pos in range(n):
+                for off in off_pool:
+                    if off["k"] == sort_of[sig[pos]]:
+                        continue
+                    args = [off if i == pos else exact[p][i] for i, p in enumerate(sig)]
+                    for ret in core:
+                        if quick and n == 3 and ret != sig[0] and rng.random() < 0.5:
+                            continue
+                        cases.append({"k": "func", "params": list(sig), "ret": ret, "retv": ret_pool(ret)[-1], "args": args})
+            for ret in core:      # and all arguments exact
+                cases.append({"k": "func", "params": list(sig), "ret": ret, "retv": ret_pool(ret)[-1], "args": [exact[p][i] for i, p in enumerate(sig)]})
     # DEFINED types (type Name string, Flag bool, Celsius float64, Level int, Small int8, Ratio float32):
     # same kinds, different types — reflect.Call needs the exact type
     for p in NAMED:
@@ -456,5 +477,5 @@ def main(ck):
     ck.cov["outcomes"] = {k: sum(1 for o in outs if o["out"] == k) for k in ("val", "nil", "throw", "panic", "go")}
     ck.samples = [cases[40], cases[len(cases) // 2], cases[-1]]
     ck.finish(level="proof", evaluations=len(cases), distinct_nontrivial=len(nontriv),
-              rule="reflective path: every parameter kind (14 supported + an unsupported slice) x a per-kind pool (min, max, min-1, max+1 of the kind, 0, +-1, int64 limits, +-0.0, subnormal, float32 max / just above / 1e308, inf, NaN, empty, multi-byte, invalid UTF-8 and 64 KiB strings, values of every other script kind, null, array) x 5 result kinds at arity 1; every signature of arity 2 and 3 over the 14 kinds (196 + 2744) with pool-sampled arguments and a random result kind; every result kind x boundary results at arity 0; 12 methods of a registered struct; CONCURRENT: 8 workers x 4 000 calls each of one registered function and of one struct method, from goroutines and from spawned script coroutines, arguments tagged per caller and checked in Go, repeated under -race (4 x 300); generic path: ConvertFromIndex[T] for all 14 T x 41 scalar/boundary values (thorough: + 20 000 random ints/floats); non-trivial = distinct call with at least one parameter, or distinct generic conversion",
+              rule="reflective path: every parameter kind (14 supported + an unsupported slice) x a per-kind pool (min, max, min-1, max+1 of the kind, 0, +-1, int64 limits, +-0.0, subnormal, float32 max / just above / 1e308, inf, NaN, empty, multi-byte, invalid UTF-8 and 64 KiB strings, values of every other script kind, null, array) x 5 result kinds at arity 1; every signature of arity 2 and 3 over the 14 kinds (196 + 2744) with pool-sampled arguments and a random result kind; POSITION matrix: every signature of arity 2 and 3 over {int, float64, string, bool} x result kind among them x every argument position holding one argument of another script sort (int, fractional float, non-numeric and numeric string, bool, null, array) while all other arguments are exactly of their parameter's sort; every result kind x boundary results at arity 0; 12 methods of a registered struct; CONCURRENT: 8 workers x 4 000 calls each of one registered function and of one struct method, from goroutines and from spawned script coroutines, arguments tagged per caller and checked in Go, repeated under -race (4 x 300); generic path: ConvertFromIndex[T] for all 14 T x 41 scalar/boundary values (thorough: + 20 000 random ints/floats); non-trivial = distinct call with at least one parameter, or distinct generic conversion",
               traces=len(terms))
